@@ -482,6 +482,18 @@ func (vc *VC) callEffects(fr *Frame, c *ssa.CallCommon) *EffectSet {
 	if callee == nil {
 		callee = c.StaticCallee()
 	}
+	if callee == nil {
+		// a closure called through the local variable it was stored in (the
+		// load may not have been translated yet when a loop's write set is
+		// computed): the variable's only store names the closure
+		if u, ok := c.Value.(*ssa.UnOp); ok {
+			if a, ok := u.X.(*ssa.Alloc); ok {
+				if mc := singleClosureStore(a); mc != nil {
+					callee = mc.Fn.(*ssa.Function)
+				}
+			}
+		}
+	}
 	return vc.effectsOfCall(fr, c, callee)
 }
 
